@@ -416,6 +416,13 @@ def d1_history(position, P, build, derive, early, target, mkind, dotted=True, tw
                 return None
         elif mkind == "none":
             pass
+        elif mkind == "ellipsoid":
+            # a plain attribute the conversions depend on: another figure of the Earth
+            from midgard.math import ellipsoid as _ell
+
+            if "ellipsoid" not in x.__dict__:
+                return None
+            x.ellipsoid = _ell.WGS72 if x.ellipsoid is not _ell.WGS72 else _ell.GRS80
         elif not item_assign(x, mkind):
             return None
     except Exception:
@@ -473,9 +480,12 @@ def plan_d1(ctx, mods, thorough):
             for tl, tg in targets:
                 x = tg(o, q)
                 kinds = list(MUT_KINDS) + ["attr:" + att for att in ("other", "ref_pos") if x is not None and isinstance(x.__dict__.get(att), np.ndarray)]
+                if x is not None and "ellipsoid" in x.__dict__:
+                    kinds.append("ellipsoid")
                 for mk in kinds:
                     plan = (wname, dname, tl, tg, mk, names, singles)
-                    is_core = ((mk == "row0" or mk.startswith("attr:")) and (thorough or wname in QUICK_WORLDS)
+                    is_core = ((mk == "row0" or mk.startswith("attr:") or (mk == "ellipsoid" and tl in ("derived", "source")))
+                               and (thorough or wname in QUICK_WORLDS)
                                or (mk.startswith("attr:") and dname.startswith("to:")))  # an attachment replaced on a handed-out conversion
                     (core if is_core else rest).append(plan)
             core.append((wname, dname, "derived", targets[0][1], "none", names, singles))
@@ -544,6 +554,10 @@ def exec_d1(ctx, mods, job, state):
                 # the attachment of a conversion the source keeps in its cache is replaced (attribute assignment on the returned
                 # object): only item assignment to it is reported back to the source
                 key = "handed-out-conversion:attachment-replaced"
+            if mk == "ellipsoid" and not ((tl == "derived" and not nm.startswith("source:")) or (tl == "source" and nm.startswith("source:"))):
+                # the ellipsoid of an object is replaced and a *different* object (one that has it as other / ref_pos, or shares its
+                # memory) returns a stale value: __setattr__ of a plain attribute clears the object's own cache only
+                key = "ellipsoid-replaced:other-object-stale"
             ctx.violate(key,
                         f"{wname}: q = {dname}(o); read {ename}; change {tl} ({mk}); then {who} gave "
                         f"{show(got[0][nm])} but {show(base[0][nm])} when nothing was read before the change "
@@ -1154,4 +1168,71 @@ def run_time_derivations(ctx, mods, thorough):
                                     f"{scale} time in format {fmt}: {'; '.join(plan)}; q = {dname}(t); q.{k} gave {str(got.get(k))[:160]} but {str(base[k])[:160]} "
                                     f"without the earlier operations ({len(bad)} of {len(base)} reads differ)",
                                     {"part": "H", "fmt": fmt, "scale": scale, "earlier": list(plan), "derivation": dname})
+    return n
+
+
+# ------------------------------------------------------------------------------------------------ I: the same numbers under two scales
+# Every cache of the time classes is keyed by the time object (`__hash__` of the two-part Julian date, `__eq__`).  Two time
+# objects with bit-identical jd1 / jd2 in *different scales* are different epochs: for every ordered pair of scales, array and
+# scalar, every scale conversion / format / property (by introspection) is read on the first and then on the second; what the
+# second returns must equal what a freshly built equal object returns when every cache has been cleared before.
+
+
+def run_time_scale_shadows(ctx, mods):
+    from . import c08
+
+    T, Time = mods[4], mods[5]
+    caches = c08.all_lru_caches(mods)
+    fmts = sorted(T._FORMATS.get("TimeFormat", {}))
+    scales = ["utc", "tai", "gps", "tt", "tcg"]
+
+    def clear():
+        for c in caches:
+            c.cache_clear()
+
+    def snap(x):
+        s = _tsnap(x)
+        if isinstance(x, np.ndarray) and hasattr(x, "jd1"):
+            s += (type(x).__name__, np.asarray(x.jd1, dtype=float).tobytes(), np.asarray(x.jd2, dtype=float).tobytes())
+        return s
+
+    def read(t, name):
+        try:
+            return snap(getattr(t, name))
+        except Exception as e:  # noqa
+            return ("ERR", type(e).__name__)
+
+    n = 0
+    for shape in ("n", "0"):
+        def make(scale, shape=shape):
+            if shape == "0":
+                return Time(2457754.5, val2=0.25, fmt="jd", scale=scale)
+            return Time(np.array([2457754.5, 2457755.5, 2457790.5]), val2=np.array([0.25, 0.5, 0.125]), fmt="jd", scale=scale)
+        for s1 in scales:
+            for s2 in scales:
+                if s1 == s2:
+                    continue
+                try:
+                    t2 = make(s2)
+                except Exception:
+                    continue
+                props = []
+                for cls in type(t2).__mro__:
+                    if getattr(cls, "__module__", "").startswith("midgard"):
+                        props += [k for k, v in vars(cls).items() if isinstance(v, property) and not k.startswith("_")]
+                for name in sorted(set(scales + fmts + props)):
+                    clear()
+                    ref = read(make(s2), name)
+                    clear()
+                    first = read(make(s1), name)
+                    got = read(make(s2), name)
+                    n += 1
+                    ctx.case(["I", shape, s1, s2, name], nontrivial=True)
+                    ctx.count("I:scale-shadow")
+                    if got != ref:
+                        ctx.violate(f"scale-shadow:{name}",
+                                    f"two times with the same Julian date numbers (shape {shape}): {s1}_time.{name} was read first, then {s2}_time.{name} gave "
+                                    f"{str(got)[:200]} instead of {str(ref)[:200]} (its value with all caches cleared){'; it is what the ' + s1 + ' time returned' if got == first else ''}",
+                                    {"part": "I", "shape": shape, "first_scale": s1, "second_scale": s2, "name": name})
+    clear()
     return n
